@@ -248,6 +248,35 @@ theorem DgSame.appDropStream (e : EP) (h : Nat) : DgSame e (appDropStream e h).1
     · exact DgSame.modObj _ _ _
     · exact DgSame.silent rfl rfl
 
+theorem DgSame.appBindReq (e : EP) (req : Nat) (bt : BindType) (host : Bytes) (port : Nat) :
+    DgSame e (appBindReq e req bt host port).1 := by
+  unfold Mux.appBindReq
+  repeat' split
+  all_goals first
+    | exact DgSame.refl e
+    | exact DgSame.silent rfl rfl
+    | exact DgSame.after (DgSame.enqFrame _ _ (by intros; simp)) (DgSame.silent rfl rfl)
+
+theorem DgSame.appBindNext (e : EP) : DgSame e (appBindNext e).1 := by
+  unfold Mux.appBindNext
+  repeat' split
+  all_goals first | exact DgSame.refl e | exact DgSame.silent rfl rfl
+
+theorem DgSame.appBindReply (e : EP) (k : Nat) (acc : Bool) : DgSame e (appBindReply e k acc).1 := by
+  unfold Mux.appBindReply
+  repeat' split
+  all_goals first
+    | exact DgSame.refl e
+    | exact DgSame.trans (DgSame.enqFrame e _ (by intros; cases acc <;> simp)) (DgSame.silent rfl rfl)
+
+theorem DgSame.appBindDrop (e : EP) (k : Nat) : DgSame e (appBindDrop e k).1 := by
+  unfold Mux.appBindDrop
+  repeat' split
+  all_goals first
+    | exact DgSame.refl e
+    | exact DgSame.silent rfl rfl
+    | exact DgSame.after (DgSame.enqFrame _ _ (by intros; simp)) (DgSame.silent rfl rfl)
+
 end Penguin.Mux
 
 namespace Penguin.Pair
@@ -370,8 +399,7 @@ theorem stepL_dg {p p' : PS} (a : Act) (h : DgInv p) (hs : stepL p a = some p') 
     split at hs
     · cases hs
     · split at hs
-      · cases hs
-      · rename_i f rest _ hba
+      · rename_i f rest hba
         split at hs
         · rename_i e evs hpf
           cases hs
@@ -423,6 +451,14 @@ theorem stepL_dg {p p' : PS} (a : Act) (h : DgInv p) (hs : stepL p a = some p') 
     · cases hs
     · cases hs
       exact same ((DgSame.silent rfl rfl : DgSame p.a { p.a with retryq := [] }).trans (DgSame.runRetries _ _)) rfl rfl
+  | bindReq req bt host port =>
+    simp only [stepL] at hs
+    split at hs
+    · cases hs
+    · cases hs; exact same (DgSame.appBindReq _ _ _ _ _) rfl rfl
+  | bindNext => simp only [stepL] at hs; cases hs; exact same (DgSame.appBindNext _) rfl rfl
+  | bindReply k acc => simp only [stepL] at hs; cases hs; exact same (DgSame.appBindReply _ _ _) rfl rfl
+  | bindDrop k => simp only [stepL] at hs; cases hs; exact same (DgSame.appBindDrop _ _) rfl rfl
 
 theorem step_dg {p p' : PS} (s : Side) (a : Act) (h : DgInv p) (hs : step p s a = some p') : DgInv p' := by
   cases s with
